@@ -149,13 +149,51 @@ theorem deal_secret (F : Perm) (fuel : Nat) (T : Option Strobe) (thr : Nat) (ht 
   simp only [List.map_cons, List.map_nil, List.flatten_cons, List.flatten_nil, List.append_nil]
   exact (fromRepr_some _ _ (key_chunk_canonical d.K hKl)).2.2
 
-/-- `recover` once the interpolated key is known: the outcome is decided by the MAC comparison -/
+theorem macTranscript_mirror (F : Perm) (thr : Nat) (M R : Bytes) :
+    Strobe.Mirror (macTranscript F none thr M R) (macTranscript F none thr M R) :=
+  Strobe.Mirror.refl_of_none _ (by
+    unfold macTranscript
+    rw [Strobe.key_isReceiver, Strobe.ad_isReceiver, Strobe.ad_isReceiver]
+    exact Strobe.new_isReceiver F _)
+
+/-- the key the transcript derives after a MAC of `n` bytes (`n = 64`: `keyOf`) -/
+def keyAfterMac (F : Perm) (thr : Nat) (M R : Bytes) (n : Nat) : Bytes :=
+  (Strobe.prf F (Strobe.sendMac F (macTranscript F none thr M R) n).1 Params.adssKeyLen).2
+
+theorem keyAfterMac_64 (F : Perm) (thr : Nat) (M R : Bytes) :
+    keyAfterMac F thr M R Params.macLength = keyOf F none thr M R := rfl
+
+/-- **`verify` decided**: it accepts exactly when the tag is the transcript's MAC AND the
+interpolated key is the key the transcript derives after that MAC -/
+theorem verify_iff (F : Perm) (c : Commune) (J K : Bytes) :
+    verify F c J K = true ↔
+      J = (Strobe.sendMac F (macTranscript F none c.thr c.M c.R) J.length).2 ∧
+      K = keyAfterMac F c.thr c.M c.R J.length := by
+  have hmt := macTranscript_mirror F c.thr c.M c.R
+  have hiff := Strobe.recvMac_iff F _ _ hmt J
+  unfold verify
+  simp only
+  by_cases hv : (Strobe.recvMac F (macTranscript F none c.thr c.M c.R) J).2 = true
+  · rw [if_pos hv, Strobe.recvMac_state F _ _ hmt J hv, Strobe.prf_withRecv]
+    simp only [beq_iff_eq]
+    unfold keyAfterMac
+    constructor
+    · intro h; exact ⟨hiff.mp hv, h.symm⟩
+    · intro h; exact h.2.symm
+  · rw [if_neg hv]
+    constructor
+    · intro h; cases h
+    · intro h; exact absurd (hiff.mpr h.1) hv
+
+/-- `recover` once the interpolated key is known: the outcome is decided by the MAC comparison
+and the comparison of the interpolated key with the transcript's key -/
 theorem recover_of_key (F : Perm) (s0 : Share) (rest : List Share) (K M R : Bytes) (hKl : K.length = 16)
     (hk : Sharks.recover s0.thr ((s0 :: rest).map (·.S)) = .ok (K ++ Bytes.zeros 8))
     (hC : s0.C = (Strobe.sendEnc F (encKey F K) M).2)
     (hD : s0.D = (Strobe.sendEnc F (Strobe.sendEnc F (encKey F K) M).1 R).2) :
     recover F (s0 :: rest) =
-      if s0.J = (Strobe.sendMac F (macTranscript F none s0.thr M R) s0.J.length).2
+      if s0.J = (Strobe.sendMac F (macTranscript F none s0.thr M R) s0.J.length).2 ∧
+          K = keyAfterMac F s0.thr M R s0.J.length
       then .ok ⟨s0.thr, M, R⟩ else .err "mac" := by
   unfold recover
   simp only
@@ -173,17 +211,11 @@ theorem recover_of_key (F : Perm) (s0 : Share) (rest : List Share) (K M R : Byte
   obtain ⟨hM, hmir2⟩ := Strobe.recvEnc_sendEnc F _ _ hmir M
   obtain ⟨hR, _⟩ := Strobe.recvEnc_sendEnc F _ _ hmir2 R
   rw [hC, hM, hD, hR]
-  have hmt : Strobe.Mirror (macTranscript F none s0.thr M R) (macTranscript F none s0.thr M R) :=
-    Strobe.Mirror.refl_of_none _ (by
-      unfold macTranscript
-      rw [Strobe.key_isReceiver, Strobe.ad_isReceiver, Strobe.ad_isReceiver]
-      exact Strobe.new_isReceiver F _)
-  have hiff := Strobe.recvMac_iff F _ _ hmt s0.J
-  unfold verify
-  simp only
-  by_cases hj : s0.J = (Strobe.sendMac F (macTranscript F none s0.thr M R) s0.J.length).2
+  have hiff := verify_iff F ⟨s0.thr, M, R⟩ s0.J K
+  by_cases hj : s0.J = (Strobe.sendMac F (macTranscript F none s0.thr M R) s0.J.length).2 ∧
+      K = keyAfterMac F s0.thr M R s0.J.length
   · rw [if_pos (hiff.mpr hj), if_pos hj]
-  · have : ¬ (Strobe.recvMac F (macTranscript F none s0.thr M R) s0.J).2 = true := fun h => hj (hiff.mp h)
+  · have : ¬ verify F ⟨s0.thr, M, R⟩ s0.J K = true := fun h => hj (hiff.mp h)
     rw [if_neg this, if_neg hj]
 
 /-- the collection `xs ↦ share at x` of one dealing, with the fields of the FIRST share replaced
@@ -217,7 +249,10 @@ theorem recover_honest (F : Perm) (fuel : Nat) (thr : Nat) (ht : 1 ≤ thr) (M R
     rw [recover_of_key F _ _ d.K M R hKl hk hC hD]
     simp only
     rw [if_pos]
-    rw [hJ]; unfold macOf; rw [Strobe.sendMac_length]
+    have hl : d.J.length = Params.macLength := by rw [hJ]; exact macOf_length F none thr M R
+    refine ⟨?_, ?_⟩
+    · rw [hJ]; unfold macOf; rw [Strobe.sendMac_length]
+    · rw [hl, keyAfterMac_64, hK]
 
 /-- **Acceptance implies the MAC relation**, for ARBITRARY collections of shares: if `recover`
 returns a commune then its threshold is the first share's, and the first share's tag is exactly
@@ -227,7 +262,8 @@ theorem recover_ok_mac (F : Perm) (s0 : Share) (rest : List Share) (c : Commune)
     c.thr = s0.thr ∧ s0.J = (Strobe.sendMac F (macTranscript F none c.thr c.M c.R) s0.J.length).2 ∧
     ∃ key, Sharks.recover s0.thr ((s0 :: rest).map (·.S)) = .ok key ∧ Params.adssKeyLen ≤ key.length ∧
       c.M = (Strobe.recvEnc F (encKey F (key.take Params.adssKeyLen)) s0.C).2 ∧
-      c.R = (Strobe.recvEnc F (Strobe.recvEnc F (encKey F (key.take Params.adssKeyLen)) s0.C).1 s0.D).2 := by
+      c.R = (Strobe.recvEnc F (Strobe.recvEnc F (encKey F (key.take Params.adssKeyLen)) s0.C).1 s0.D).2 ∧
+      key.take Params.adssKeyLen = keyAfterMac F c.thr c.M c.R s0.J.length := by
   unfold recover at h
   simp only at h
   cases hk : Sharks.recover s0.thr ((s0 :: rest).map (·.S)) with
@@ -240,22 +276,12 @@ theorem recover_ok_mac (F : Perm) (s0 : Share) (rest : List Share) (c : Commune)
     · rw [if_pos hl] at h; cases h
     · rw [if_neg hl] at h
       by_cases hv : verify F ⟨s0.thr, (Strobe.recvEnc F (encKey F (key.take Params.adssKeyLen)) s0.C).2,
-          (Strobe.recvEnc F (Strobe.recvEnc F (encKey F (key.take Params.adssKeyLen)) s0.C).1 s0.D).2⟩ s0.J = true
+          (Strobe.recvEnc F (Strobe.recvEnc F (encKey F (key.take Params.adssKeyLen)) s0.C).1 s0.D).2⟩ s0.J
+          (key.take Params.adssKeyLen) = true
       · rw [if_pos hv] at h
         injection h with h; subst h
-        refine ⟨rfl, ?_, key, rfl, by omega, rfl, rfl⟩
-        unfold verify at hv
-        have hmt : Strobe.Mirror (macTranscript F none s0.thr
-            (Strobe.recvEnc F (encKey F (key.take Params.adssKeyLen)) s0.C).2
-            (Strobe.recvEnc F (Strobe.recvEnc F (encKey F (key.take Params.adssKeyLen)) s0.C).1 s0.D).2)
-            (macTranscript F none s0.thr
-            (Strobe.recvEnc F (encKey F (key.take Params.adssKeyLen)) s0.C).2
-            (Strobe.recvEnc F (Strobe.recvEnc F (encKey F (key.take Params.adssKeyLen)) s0.C).1 s0.D).2) :=
-          Strobe.Mirror.refl_of_none _ (by
-            unfold macTranscript
-            rw [Strobe.key_isReceiver, Strobe.ad_isReceiver, Strobe.ad_isReceiver]
-            exact Strobe.new_isReceiver F _)
-        exact (Strobe.recvMac_iff F _ _ hmt _).mp hv
+        obtain ⟨v1, v2⟩ := (verify_iff F _ _ _).mp hv
+        exact ⟨rfl, v1, key, rfl, by omega, rfl, rfl, v2⟩
       · rw [if_neg hv] at h; cases h
 
 theorem recover_not_panic (F : Perm) (shares : List Share) (w : String) : recover F shares ≠ .panic w := by
